@@ -50,13 +50,33 @@ def fmt_decl(ty, name, arr=''):
     return '%s %s%s' % (ty, name, arr)
 
 
+def _need(members):
+    """strictest explicit alignment anywhere inside these members (through named aggregate types too)"""
+    import re
+    need = 16
+    for m in members:
+        need = max([need] + [int(x) for x in re.findall(r'_Alignas\((\d+)\)', m.decl)])
+        if getattr(m, 'agg', None) is not None:
+            need = max(need, _need(m.agg.members))
+    return need
+
+
+def _over(r, members):
+    """an alignment specifier at least as strict as anything inside (6.7.5p4 forbids a weaker one)"""
+    need = _need(members)
+    return '_Alignas(%d) ' % r.choice([a for a in (16, 32, 64) if a >= need])
+
+
 def gen_agg(r, tag, earlier, features, prefix=''):
     kw = 'union' if r.random() < 0.2 else 'struct'
     packed = kw == 'struct' and 'packed' in features and r.random() < 0.15
     if packed:
         # every documented spelling of the attribute
         packed = r.choice(['__attribute__((packed))', '__attribute__((__packed__))', '[[gnu::packed]]', '[[gnu::__packed__]]', '[[__gnu__::__packed__]]', '[[__gnu__::packed]]',
-                           '__attribute__((packed)) __attribute__((unused))', '[[gnu::packed, gnu::unused]]'])
+                           '__attribute__((packed)) __attribute__((unused))', '[[gnu::packed, gnu::unused]]',
+                           # the attribute in a later specifier or a later position of a list
+                           '[[deprecated]] [[gnu::packed]]', '[[gnu::unused]] [[gnu::packed]]', '[[gnu::unused, gnu::packed]]', '[[]] [[gnu::packed]]', '[[deprecated("x"), gnu::packed]]',
+                           '__attribute__((unused)) __attribute__((packed))', '__attribute__((unused, packed))', '__attribute__(()) __attribute__((packed))'])
     n = r.randrange(1, 9)
     members = []
     names = 0
@@ -86,18 +106,23 @@ def gen_agg(r, tag, earlier, features, prefix=''):
                 dn = r.randrange(1, 4)
                 members.append(Member(name, '%s %s[%d]' % (a.cname, name, dn), 'array', ty=a.cname, agg=a, dims=[dn]))
             else:
-                members.append(Member(name, '%s %s' % (a.cname, name), 'agg', agg=a))
+                al = _over(r, a.members) if 'alignas' in features and r.random() < 0.1 and not packed else ''
+                members.append(Member(name, '%s%s %s' % (al, a.cname, name), 'agg', agg=a))
             names += 1
         elif k < 0.50 and 'anon' in features and prefix.count('a') < 3:
             sub = gen_agg(r, '', [], features - {'flex', 'packed'}, prefix + 'a%d_' % i)
             sub.tag = ''
-            members.append(Member(None, '%s { %s }' % (sub.kw, ' '.join(m.decl + ';' for m in sub.members)), 'anon', agg=sub))
+            al = ''
+            if 'alignas' in features and r.random() < 0.15 and not packed:
+                al = _over(r, sub.members)
+            members.append(Member(None, '%s%s { %s }' % (al, sub.kw, ' '.join(m.decl + ';' for m in sub.members)), 'anon', agg=sub))
             names += 1
         elif k < 0.62:
             ty, sz = r.choice(SCALARS)
             dl = [r.randrange(1, 5) for _ in range(r.randrange(1, 3))]
             dims = ''.join('[%d]' % x for x in dl)
-            members.append(Member(name, fmt_decl(ty, name, dims), 'array', ty=ty, dims=dl))
+            al = '_Alignas(%d) ' % r.choice([16, 32, 64]) if 'alignas' in features and r.random() < 0.1 and not packed else ''
+            members.append(Member(name, al + fmt_decl(ty, name, dims), 'array', ty=ty, dims=dl))
             names += 1
         else:
             ty, sz = r.choice(SCALARS + ([('long double', 16)] if 'ldouble' in features else []))
